@@ -1,6 +1,6 @@
 #!/bin/bash
 # tools/runall.sh [tier]  - every registered check once, with timings; validates evidence
-cd /verif
+cd "$(dirname "$0")/.."
 TIER=${1:-quick}
 fail=0
 for id in C01 C02 C03 C04 C05 C06 C07 C08 C09 C10 C11 C12 C13 C14 C15 C16 C17 C18 C19 C20; do
@@ -12,9 +12,9 @@ for id in C01 C02 C03 C04 C05 C06 C07 C08 C09 C10 C11 C12 C13 C14 C15 C16 C17 C1
 done
 python3-vt - <<'PY'
 import json, jsonschema, glob
-jsonschema.validate(json.load(open('/verif/MANIFEST.json')), json.load(open('/root/.vp/MANIFEST.schema.json')))
+jsonschema.validate(json.load(open('MANIFEST.json')), json.load(open('/root/.vp/MANIFEST.schema.json')))
 sch=json.load(open('/root/.vp/EVIDENCE.schema.json'))
-for f in sorted(glob.glob('/verif/evidence/*.json')):
+for f in sorted(glob.glob('evidence/*.json')):
     try: jsonschema.validate(json.load(open(f)), sch)
     except Exception as e: print("EVIDENCE INVALID", f, str(e)[:200])
 print("schemas checked")
